@@ -598,7 +598,7 @@ def splice_fn(item, directives, log, probe=False):
               inserts.append((b, order, "\n" + d["text"])); order += 1
           elif op == "subst":
               r = re.compile(d["rx"])
-              hits = [m for m in r.finditer(text) if m.start() > bo]
+              hits = [m for m in r.finditer(text)]
               if not hits:
                   raise AnchorLost(f"{item.name}: subst /{d['rx']}/ not found")
               if d["n"] == "all":
@@ -633,7 +633,7 @@ def splice_fn(item, directives, log, probe=False):
     for (off, o, t) in inserts:
         events.append((off, 1, o, "ins", t, off))
     for (a, b, r) in substs:
-        events.append((a, 0, 0, "sub", r, b))
+        events.append((a, 2, 0, "sub", r, b))
     # check substs do not overlap inserts in their interior
     out = text
     for (off, pri, o, kind, t, endoff) in sorted(events, key=lambda x: (x[0], x[1], x[2]), reverse=True):
